@@ -1135,6 +1135,11 @@ def attr_cases(tier, rng):
     add(10, [0, 0x24, 0, 0x25, 0x80, 0x2a, 0, 6], src="unknown attributes, unsorted")
     add(10, [0, 6, 0, 6, 0x80, 0x2a, 0, 6], src="unknown attributes, repeated")
     add(29, [1, 1, 0, 0], src="password algorithm high byte")
+    # the algorithm number is 16 bits: numbers that agree with MD5 / SHA-256 in one byte only, in both positions
+    for hi, lo in ((1, 1), (2, 1), (0xff, 2), (1, 2), (0x80, 1), (1, 0), (2, 0), (0, 0x81), (0, 0x82), (2, 2)):
+        add(29, [hi, lo, 0, 0], src="password algorithm number 0x%02x%02x" % (hi, lo))
+        add(32770, [hi, lo, 0, 0], src="password algorithms, number 0x%02x%02x" % (hi, lo))
+        add(32770, [0, 2, 0, 0, hi, lo, 0, 0], src="password algorithms, second number 0x%02x%02x" % (hi, lo))
     add(32770, [0, 1, 0, 0, 0, 2, 0, 0, 0, 2, 0, 0], src="password algorithms list")
     # (f) unknown-attributes lists, fixed-size blobs with random content
     for n in (0, 2, 4, 6, 40):
